@@ -333,7 +333,7 @@ def run(ctx, prop):
         log("BUILD FAILED (harness raftsim):\n" + out[-3000:])
         raise SystemExit(2)
     vlib.regen_consts("Raft", "raftsim")
-    proofs_ok, info = ctx.check_proofs(make_targets=["Raft/Proofs.vo", "Raft/ProofsLog.vo", "Raft/ProofsStore.vo", "Properties/%s.vo" % prop],
+    proofs_ok, info = ctx.check_proofs(make_targets=["Raft/Proofs.vo", "Raft/ProofsLog.vo", "Raft/ProofsStore.vo", "Raft/ProofsCore.vo", "Properties/%s.vo" % prop],
                                        gate_paths=["Raft/", "RaftAbs/", "Common", "Properties/%s" % prop])
     mok, mout, _ = vlib.model_build("Raft")
     if not mok:
@@ -394,6 +394,41 @@ def run(ctx, prop):
     impl_log, _ = vlib.read_out(os.path.join(d, "oracle.out"))
     log_fails = log_oracle(prop, d, impl_log)
     fails += log_fails
+
+    # ---- 1b. handler-level correspondence: every StepNode / Advance / HandleConfChanged of generated schedules as an
+    #          independent case (pre-state + inputs -> post-state + Ready) against coq/Raft/Core.v ----
+    core_cov = dict(cases=0, mismatches=0)
+    core_plans = [("core-mix", "-mode core -seed %d -n %d -events %d" % (ctx.seed, 30 if quick else 300, 900 if quick else 1500)),
+                  ("core-paging", "-mode core -seed %d -n %d -events %d -profile paging" % (ctx.seed + 7, 20 if quick else 200, 1000 if quick else 1500))]
+    for cname, cargs in core_plans:
+        rc, out, _, dcore = cached_raftsim(ctx, cname, cargs)
+        if rc != 0:
+            log("HARNESS RUN FAILED (core mode):\n" + out[-3000:])
+            raise SystemExit(2)
+        dd = os.path.join(work, cname)
+        shutil.rmtree(dd, ignore_errors=True)
+        os.makedirs(dd)
+        rc2, out2, _ = sh("%s < %s > model.out" % (vlib.modelrun_path("Raft"), os.path.join(dcore, "core-cases.tsv")), cwd=dd, timeout=1800)
+        if rc2 != 0:
+            log("MODEL RUN FAILED (core):\n" + out2[-3000:])
+            raise SystemExit(2)
+        cm, ncore = vlib.diff_outputs(os.path.join(dcore, "core-impl.out"), os.path.join(dd, "model.out"))
+        core_cov["cases"] += ncore
+        core_cov["mismatches"] += len(cm)
+        for k, a, b in cm[:5]:
+            # name the fields that differ
+            fa, fb = (a or "").split(" "), (b or "").split(" ")
+            diff = [x.split("=")[0] for x, y in zip(fa, fb) if x != y] if len(fa) == len(fb) else ["shape"]
+            mism.append(("core:%s:%s" % (cname, k), "fields %s: %s" % (",".join(diff[:8]), (a or "")[:400]), (b or "")[:400]))
+        mism += [("core:%s:%s" % (cname, k), (a or "")[:200], (b or "")[:200]) for k, a, b in cm[5:40]]
+        try:
+            st = json.load(open(os.path.join(dcore, "core-stats.json")))
+            for kk, vv in st.items():
+                dst = core_cov.setdefault(kk, {})
+                for a, b in vv.items():
+                    dst[a] = dst.get(a, 0) + b
+        except (OSError, ValueError):
+            pass
 
     # ---- 2. corpus (regressions) and an explicit replay ----
     scen_files = sorted(glob.glob(os.path.join(vlib.VERIF, "corpus", prop, "*.json")))
@@ -486,12 +521,13 @@ def run(ctx, prop):
         return fs
 
     vlib.standard_verdict(ctx, proofs_ok, [(m[0], m[1], m[2]) for m in mism], fails, search_fn=search,
-                          corr_name="coq/Raft model vs raft.raftLog/unstable/MemoryStorage/RocksStorage (raftsim -mode log); Go oracle vs Python oracle; "
+                          corr_name="coq/Raft model vs raft.raftLog/unstable/MemoryStorage/RocksStorage (raftsim -mode log); "
+                                    "coq/Raft/Core.v vs raft.Step/StepNode/Advance/HandleConfChanged case by case (raftsim -mode core); Go oracle vs Python oracle; "
                                     "coq/RaftAbs acceptor on traces of the real cluster")
     stats_keep = {k: v for k, v in stats_all.items()}
     ctx.finish(dict(
-        traces_validated_against_impl=total_traces + nlogcases,
-        evaluations=total_records + nlogcases,
+        traces_validated_against_impl=total_traces + nlogcases + core_cov["cases"],
+        evaluations=total_records + nlogcases + core_cov["cases"],
         distinct_nontrivial=len(distinct),
         rule="schedules from one seeded PRNG (profiles steady/elect/crashy/conf/snap/stale/uniform; groups of 1..5 voters + learners added by "
              "conf change; preVote/checkQuorum on and off; MaxSizePerMsg 0 and MaxUint64; MemoryStorage and RocksStorage). A schedule is "
@@ -501,6 +537,7 @@ def run(ctx, prop):
         mismatches=len(mism),
         process_ready_order=order,
         abstract_protocol_acceptor=abs_cov,
+        handler_level_correspondence=core_cov,
         samples=samples[:6],
     ), assumptions=[
         "the driver executes node/raft.go processReady's operations in the order read from the source on every run (go/ast); the body of "
